@@ -133,11 +133,28 @@ func buildC05(e *engine, p *rt.Package) {
 					}
 					srv.reset(func(string, string, proto.Message) (proto.Message, error) { return resp, nil })
 					target := buildTarget(info, req.ProtoReflect(), !info.BodyVerb)
-					rec, panicked := srv.serve(info.Verb, target, jsonHeader(), body)
+					// the request's content type: JSON in its usual spellings, and labels the server does not know
+					// (it treats them as JSON). Whatever the request said, a response labelled application/json
+					// must be the documented mapping.
+					ct := rapid.SampledFrom([]string{"application/json", "application/json", "application/json", "application/json", "application/json; charset=utf-8",
+						"", "text/plain;charset=UTF-8", "Application/JSON", "application/x-www-form-urlencoded", "application/vnd.api+json"}).Draw(t, "request_content_type")
+					hdr := http.Header{}
+					if ct != "" {
+						hdr.Set("Content-Type", ct)
+					}
+					plainJSON := strings.HasPrefix(ct, "application/json")
+					if !plainJSON {
+						res.class("request_content_type:other")
+					}
+					rec, panicked := srv.serve(info.Verb, target, hdr, body)
 					if panicked != "" {
 						t.Fatalf("server panicked on %s %s: %s\nbody: %s", info.Verb, target, panicked, short(string(body), 500))
 					}
 					calls := srv.taken()
+					if !plainJSON && (rec.Code != 200 || !strings.HasPrefix(strings.ToLower(rec.Header().Get("Content-Type")), "application/json")) {
+						res.Unspecified++ // how an unknown request content type is bound is not documented
+						return
+					}
 					if rec.Code != 200 {
 						t.Fatalf("%s %s with the model-encoded body was answered %d: %s\nbody: %s\nrequest value: %s", info.Verb, target, rec.Code, short(rec.Body.String(), 400), short(string(body), 600), pjson(req))
 					}
@@ -149,7 +166,7 @@ func buildC05(e *engine, p *rt.Package) {
 					}
 					res.sample(map[string]any{"request_line": info.Verb + " " + target, "request_body": json.RawMessage(orNull(body)), "response_value": json.RawMessage(safeJSON(resp))})
 					// accepted form: handler-visible request equals the encoded value
-					if info.BodyVerb {
+					if info.BodyVerb && plainJSON {
 						want := model.Normalize(req)
 						if got := model.Normalize(calls[0].Req); !proto.Equal(got, want) {
 							t.Fatalf("request direction: the server decoded the documented JSON form into a different message\nbody: %s\nwant: %s\ngot:  %s", short(string(body), 600), pjson(want), pjson(got))
